@@ -495,6 +495,9 @@ def eval_case(desc, ctx):
         conf["warm_start"] = {"filename": str(d / "restart.nc"), "variables": ["temp"]}
     else:
         conf = base_conf(d, 0, N, p, "out.nc")
+    # in half of the runs the output period is not a whole number of time steps (a quarter / three quarters of a step
+    # more): records are still due every p steps, and each must carry the time of ITS step
+    conf["output"]["output_period"] = p * DT + [0, DT // 4, 0, (3 * DT) // 4][desc["id"] % 4]
     log, err, tokens, files = do_run(d, conf, desc, rec)
     top = [e for e in log if not e["nested"]]
     kinds = [e["kind"] for e in top]
